@@ -1051,6 +1051,11 @@ impl<'p> Evaluator<'_, 'p> {
     }
 }
 
+// `core::fmt` panics when the precision argument exceeds `u16::MAX`.
+// A finite `f64` has at most 1074 fractional digits (767 significant
+// digits), so every digit beyond that limit is a zero.
+const MAX_FMT_PREC: usize = u16::MAX as usize;
+
 fn render_float_def(
     value: f64,
     prec: usize,
@@ -1063,7 +1068,9 @@ fn render_float_def(
     let value_abs = value.abs();
     let is_neg = value.is_sign_negative() && value != 0.0;
 
-    let mut digits_str = format!("{value_abs:.prec$}");
+    let fmt_prec = prec.min(MAX_FMT_PREC);
+    let mut digits_str = format!("{value_abs:.fmt_prec$}");
+    digits_str.extend(std::iter::repeat_n('0', prec - fmt_prec));
     if prec == 0 && ensure_pt {
         digits_str.push('.');
     } else if prec != 0 && trim_zeros {
@@ -1090,9 +1097,15 @@ fn render_float_exp(
     let value_abs = value.abs();
     let is_neg = value.is_sign_negative() && value != 0.0;
 
-    let digits_str = format!("{value_abs:.prec$e}");
+    let fmt_prec = prec.min(MAX_FMT_PREC);
+    let digits_str = format!("{value_abs:.fmt_prec$e}");
     let e_pos = digits_str.bytes().position(|chr| chr == b'e').unwrap();
+    let mant_padded;
     let mut mant_str = &digits_str[..e_pos];
+    if prec > fmt_prec {
+        mant_padded = format!("{mant_str}{}", "0".repeat(prec - fmt_prec));
+        mant_str = &mant_padded;
+    }
     if prec != 0 && trim_zeros {
         mant_str = mant_str.trim_end_matches('0');
         if !ensure_pt {
